@@ -620,6 +620,10 @@ package eval
 //@ func rem
 //@   props C17 C11
 //@   results r err
+//   big operands: the truncated remainder (sign follows the dividend) is big.Int.Rem, never the Euclidean Mod
+//@   log big.Int.Rem big.Int.Mod big.Int.DivMod big.Int.QuoRem big.Int.Div big.Int.Quo
+//@   exit [truncated-remainder-for-big-operands] err === nil && !(istype(a, int) && istype(b, int)) ==> ncalls == 1 && callis(0, "big.Int.Rem")
+//@   exit [machine-ints-need-no-big-arithmetic] istype(a, int) && istype(b, int) ==> ncalls == 0
 //@   requires (istype(a, int) || istype(a, *big.Int) || istype(a, *big.Rat) || istype(a, float64)) && (istype(b, int) || istype(b, *big.Int) || istype(b, *big.Rat) || istype(b, float64))
 //@   requires [canonical-big-ints] (istype(a, *big.Int) ==> a.(*big.Int) != nil && !fits(bigval(a.(*big.Int)))) && (istype(b, *big.Int) ==> b.(*big.Int) != nil && !fits(bigval(b.(*big.Int))))
 //@   requires (istype(a, *big.Int) ==> allocated(a.(*big.Int))) && (istype(b, *big.Int) ==> allocated(b.(*big.Int)))
